@@ -160,6 +160,10 @@ func ruleLookup(c *Ctx, a *cacheAnchors, want map[string]bool) {
 			found[rule] = append(found[rule], msg)
 		}
 	}
+	loaderScope := map[*ssa.Function]bool{}
+	if a.initFromStore != nil {
+		loaderScope = staticScope(a.initFromStore, "cache", 4)
+	}
 	for _, ec := range a.cases() {
 		ec := ec
 		var hc *Term
@@ -187,6 +191,13 @@ func ruleLookup(c *Ctx, a *cacheAnchors, want map[string]bool) {
 				return
 			}
 			rs, rdone, rdata := pr.Results[0], pr.Results[1], pr.Results[2]
+			// the lookup itself never touches the creation time: a client that was just handed a hit reads
+			// Age() in a second lock acquisition, possibly after another client found the entry expired
+			for _, e := range pr.Events {
+				if e.Kind == "store" && e.Addr.Op == "fa" && e.Addr.Args[0].Key() == hc.Key() && e.Addr.Obj == types.Object(a.fCreatedAt) && !loaderScope[e.Fn] {
+					report("creation-time-kept", "the lookup overwrites createdAt ("+prettyTerm(e.Val)+") on "+where+": a request that already holds this entry's response computes its Age from the new value")
+				}
+			}
 			cls, ok := classify(f, S, a.fStatus.Type(), a.stUnknown, a.stFetching, a.stHFP, a.stHit)
 			seen["paths"]++
 			if !ok {
@@ -309,7 +320,7 @@ func ruleLookup(c *Ctx, a *cacheAnchors, want map[string]bool) {
 		}
 	}
 	rules := []string{"lookup-shape", "state-determined", "invariant-expiry", "no-exit-unknown", "fetching-only-from-unknown",
-		"load-only-when-unknown", "load-on-first-lookup", "invariant-waiters", "no-waiter-dropped", "registration", "returned-status", "hit-data", "expiry-applied", "expiry-exact"}
+		"load-only-when-unknown", "load-on-first-lookup", "invariant-waiters", "no-waiter-dropped", "registration", "returned-status", "hit-data", "expiry-applied", "expiry-exact", "creation-time-kept"}
 	if seen["registered"] == 0 || seen["became-fetcher"] == 0 || seen["hit"] == 0 {
 		c.undecided("lookup-transitions", name, pos, fmt.Sprintf("expected paths not found (registered=%d became-fetcher=%d hit=%d): idiom not recognised", seen["registered"], seen["became-fetcher"], seen["hit"]))
 		return
